@@ -8,14 +8,14 @@ import (
 // program is weighted toward: "mix", "cmdline", "include", "defs".
 
 type progGen struct {
-	r        *Rng
-	focus    string
-	lower    bool
-	stored   []string
-	files    []string
-	p        *Prog
-	defNames []string
-	budget   int
+	r         *Rng
+	focus     string
+	lower     bool
+	stored    []string
+	files     []string
+	p         *Prog
+	defNames  []string
+	budget    int
 	leakProbe bool
 }
 
@@ -191,6 +191,10 @@ func genProg(r *Rng, focus string) *Prog {
 		p.Cfg = [6]string{r.Pick(crsEvasion), r.Pick(crsEvasion), r.Pick(crsSuffix), r.Pick(crsSuffix), r.Pick(crsNoSpace), r.Pick(crsNoSpace)}
 		if r.Chance(1, 5) {
 			p.Cfg[r.Intn(6)] = "" // partial
+		}
+		if r.Chance(1, 8) {
+			p.CfgMode = "mistyped"
+			p.CfgBad = r.Intn(12)
 		}
 	}
 	// definitions
